@@ -252,6 +252,11 @@ def junction_class(lv):
 
 # ------------------------------------------------------------------ real-code driver
 
+def node_major(ser, node_ids):
+    """The same (load_step, node_id) series with the rows grouped by node instead of by load step."""
+    return pd.concat([ser[ser.index.get_level_values("node_id") == i] for i in node_ids])
+
+
 def as_container(loads, kind):
     """The same numbers in another container / dtype (all values are integers that fit)."""
     if kind == "list":
@@ -336,6 +341,7 @@ def generate(prop, rng, tier):
             m = rng.randint(1, 3)
             ids = rng.sample([0, 1, 2, 5, 11, 12, 40], m)
             tr["batch"] = [[i, rng.choice([1.0, 2.0, 0.5, 4.0])] for i in ids]
+            tr["row_order"] = rng.choice(["step", "step", "node"])
         return tr
     return generate_c05(rng, tier)
 
@@ -392,6 +398,7 @@ def generate_c05(rng, tier):
             rng.shuffle(ratios)
         tr["nodes"] = [[i, r] for i, r in zip(ids, ratios)]
         tr["shared_max"] = rng.random() < 0.35
+        tr["row_order"] = rng.choice(["step", "step", "node"])
         # K2 wants all loads off the class edges (see DESIGN 4.5 "known trap")
         f = 1.0137
         loads = [x * step for x in lv]
@@ -475,6 +482,9 @@ def exec_c04(trace, out, log):
         nodes = [(int(i), float(r)) for i, r in batch]
         idx = pd.MultiIndex.from_product([range(len(lv)), [i for i, _ in nodes]], names=["load_step", "node_id"])
         ser = pd.Series([x * step * r for x in lv for _, r in nodes], index=idx, dtype=np.float64)
+        if trace.get("row_order") == "node":
+            ser = node_major(ser, [i for i, _ in nodes])
+            out.count("probe:node_major_rows")
         law = get_law(trace["law"], int(trace["mat"]), [(i, big * 1.0731 * r) for i, r in nodes], int(trace["bins"]))
         det, rec, _ = run_two_pass(ser, law, peek=trace.get("peek", "none"))
         all_rows = collective_rows(rec)
@@ -743,6 +753,9 @@ def exec_c05(trace, out, log):
     idx = pd.MultiIndex.from_product([range(n), [i for i, _ in nodes]], names=["load_step", "node_id"])
     vals = [lv[k] * step * r for k in range(n) for _, r in nodes]
     batch = pd.Series(vals, index=idx, dtype=np.float64)
+    if trace.get("row_order") == "node":
+        batch = node_major(batch, [i for i, _ in nodes])
+        out.count("probe:node_major_rows")
     if shared:
         mx = max(r for _, r in nodes) * big * mf
         law_b = get_law(kind, mat, mx, bins)
